@@ -2,6 +2,8 @@
    (Model/ArgGen.v, written by harness/gen_args.py on every run) denote the
    hand-written operations of Model/Args.v.
 
+   TexGroup.parse is translated too (gen_parse_ok: it is Args.parse_group), and
+   __coerce calls that translated classmethod.
    For each translated method M, ALL states st = (list, self.all) -- no
    invariant is needed -- and all arguments:
        call (S^k n) gen_a_cls M args st = done (hand_M st args)
@@ -58,9 +60,32 @@ Ltac ev :=
        finish fst snd bind_params option_map m_params m_body set_var int2 bound_of item_of
        value_of_item value_of_arg list_op negb
        gen_a_cls gen_a_init gen_a_coerce gen_a_append gen_a_extend gen_a_insert gen_a_remove
-       gen_a_pop gen_a_reverse gen_a_clear gen_a_getitem].
+       gen_a_pop gen_a_reverse gen_a_clear gen_a_getitem gen_a_parse].
 
 Ltac enter := rewrite call_S; ev.
+
+(* ------------------------------------------------------------ TexGroup.parse *)
+
+Definition parse_rv (s : pstr) : rv :=
+  match parse_group s with
+  | Some g => RVal (VGroup g)
+  | None => RExc TypeError
+  end.
+
+Lemma zlen_single (x : Z) : zlen [x] = 1.
+Proof. reflexivity. Qed.
+
+Lemma gen_parse_ok n st s :
+  call (S n) gen_a_cls M_parse [VStr s] st = ODone st (parse_rv s).
+Proof.
+  enter. cbn [map for_loop]. ev. unfold parse_rv, parse_group, parse_kind.
+  rewrite ?zlen_single. cbn [Z.opp].
+  destruct (starts_with s [open_of true]); [destruct (ends_with s [close_of true])|];
+    cbn [andb]; ev; try reflexivity;
+    (rewrite ?zlen_single; cbn [Z.opp];
+     destruct (starts_with s [open_of false]); [destruct (ends_with s [close_of false])|];
+     cbn [andb]; ev; reflexivity).
+Qed.
 
 (* ----------------------------------------------------- __coerce, __getitem__ *)
 
@@ -71,10 +96,11 @@ Definition coerce_rv (a : arg) : rv :=
   end.
 
 Lemma gen_coerce_ok n st a :
-  call (S n) gen_a_cls M_coerce [value_of_arg a] st = ODone st (coerce_rv a).
+  call (S (S n)) gen_a_cls M_coerce [value_of_arg a] st = ODone st (coerce_rv a).
 Proof.
   enter. unfold coerce_rv, coerce. destruct a as [g|s]; ev; [reflexivity|].
   destruct (is_space s); ev; [reflexivity|].
+  rewrite gen_parse_ok. unfold parse_rv.
   destruct (parse_group s) as [g|]; reflexivity.
 Qed.
 
@@ -89,7 +115,7 @@ Qed.
 (* ------------------------------------------------------------------ insert *)
 
 Lemma gen_insert_ok n st i a :
-  call (S (S n)) gen_a_cls M_insert [VInt i; value_of_arg a] st = done (m_insert st i a).
+  call (S (S (S n))) gen_a_cls M_insert [VInt i; value_of_arg a] st = done (m_insert st i a).
 Proof.
   enter. rewrite gen_coerce_ok. unfold coerce_rv, m_insert.
   destruct (coerce a) as [it|]; [|reflexivity].
@@ -100,7 +126,7 @@ Proof.
     by (unfold i'; destruct (i <? 0); reflexivity).
   rewrite Hi. clear Hi. ev.
   assert (Hshadow : forall lst1,
-    finish (exec_block (call (S n) gen_a_cls)
+    finish (exec_block (call (S (S n)) gen_a_cls)
       (BCons (SIf (ECmp CLe (ELen ESelf) (EInt 1))
                 (BCons (SExpr (ELop RAll LAppend (ACons (EVar 1) ANil))) BNil)
                 (BCons (SIf (ECmp CEq (EVar 0) (EInt 0))
@@ -139,7 +165,7 @@ Proof.
 Qed.
 
 Lemma gen_append_ok n st a :
-  call (S (S (S n))) gen_a_cls M_append [value_of_arg a] st = done (m_append st a).
+  call (S (S (S (S n)))) gen_a_cls M_append [value_of_arg a] st = done (m_append st a).
 Proof.
   enter. rewrite gen_insert_ok. unfold m_append, done.
   pose proof (m_insert_shape st (zlen (fst st)) a) as Hsh.
@@ -152,7 +178,7 @@ Qed.
 Definition ext_body := blk [SExpr (ECallMeth M_append (args_of [EVar 1]))].
 
 Lemma ext_body_step n x a rest st :
-  exec_block (call (S (S (S n))) gen_a_cls) ext_body (Some x :: Some (value_of_arg a) :: rest) st
+  exec_block (call (S (S (S (S n)))) gen_a_cls) ext_body (Some x :: Some (value_of_arg a) :: rest) st
   = match m_append st a with
     | (st1, ONone) => XNormal (Some x :: Some (value_of_arg a) :: rest) st1
     | (st1, o) => match of_out o with RExc e => XExc e st1 | RVal _ => XUnsup end
@@ -165,11 +191,12 @@ Proof.
 Qed.
 
 Lemma extend_loop n x : forall l rest st,
-  finish (for_loop (exec_block (call (S (S (S n))) gen_a_cls) ext_body) 1 l (Some x :: rest) st)
+  finish (for_loop (exec_block (call (S (S (S (S n)))) gen_a_cls) ext_body) 1 (map value_of_arg l)
+                   (Some x :: rest) st)
   = done (m_extend st l).
 Proof.
   induction l as [|a l IH]; intros rest st; [reflexivity|].
-  cbn [for_loop m_extend].
+  cbn [map for_loop m_extend].
   assert (Hset : exists rest', set_var (Some x :: rest) 1 (value_of_arg a)
                                = Some x :: Some (value_of_arg a) :: rest')
     by (destruct rest as [|r rest]; eexists; reflexivity).
@@ -180,16 +207,17 @@ Proof.
 Qed.
 
 Lemma gen_extend_ok n st l :
-  call (S (S (S (S n)))) gen_a_cls M_extend [VArgs l] st = done (m_extend st l).
+  call (S (S (S (S (S n))))) gen_a_cls M_extend [VArgs l] st = done (m_extend st l).
 Proof.
   rewrite call_S.
-  change (finish (match for_loop (exec_block (call (S (S (S n))) gen_a_cls) ext_body) 1 l
-                                 [Some (VArgs l)] st with
+  change (finish (match for_loop (exec_block (call (S (S (S (S n)))) gen_a_cls) ext_body) 1
+                                 (map value_of_arg l) [Some (VArgs l)] st with
                   | XNormal en' d' => XNormal en' d'
                   | x => x
                   end) = done (m_extend st l)).
   rewrite <- (extend_loop n (VArgs l) l [] st).
-  destruct (for_loop (exec_block (call (S (S (S n))) gen_a_cls) ext_body) 1 l [Some (VArgs l)] st);
+  destruct (for_loop (exec_block (call (S (S (S (S n)))) gen_a_cls) ext_body) 1 (map value_of_arg l)
+                     [Some (VArgs l)] st);
     reflexivity.
 Qed.
 
@@ -208,7 +236,7 @@ Proof.
 Qed.
 
 Lemma gen_init_ok n l :
-  call (S (S (S (S (S n))))) gen_a_cls M_init [VArgs l] empty_state = done (m_new l).
+  call (S (S (S (S (S (S n)))))) gen_a_cls M_init [VArgs l] empty_state = done (m_new l).
 Proof.
   enter. unfold m_new, empty_state. ev. rewrite gen_extend_ok. unfold done.
   pose proof (m_extend_shape l ([], [])) as Hsh.
@@ -217,13 +245,13 @@ Proof.
 Qed.
 
 Lemma gen_init_default n :
-  call (S (S (S (S (S n))))) gen_a_cls M_init [] empty_state = done (m_new []).
+  call (S (S (S (S (S (S n)))))) gen_a_cls M_init [] empty_state = done (m_new []).
 Proof. rewrite <- (gen_init_ok n []). reflexivity. Qed.
 
 (* ------------------------------------------- remove, pop, reverse, clear *)
 
 Lemma gen_remove_ok n st a :
-  call (S (S n)) gen_a_cls M_remove [value_of_arg a] st = done (m_remove st a).
+  call (S (S (S n))) gen_a_cls M_remove [value_of_arg a] st = done (m_remove st a).
 Proof.
   enter. rewrite gen_coerce_ok. unfold coerce_rv, m_remove.
   destruct (coerce a) as [it|]; [|reflexivity].
@@ -262,7 +290,7 @@ Proof. destruct st as [lst all]. reflexivity. Qed.
 (* ------------------------------------------------------- __getitem__(slice) *)
 
 Lemma gen_getitem_slice_ok n st lo hi :
-  call (S (S (S (S (S (S n)))))) gen_a_cls M_getitem [VSlice lo hi] st
+  call (S (S (S (S (S (S (S n))))))) gen_a_cls M_getitem [VSlice lo hi] st
   = done (m_step st (OpSlice lo hi)).
 Proof.
   enter. destruct st as [lst all]. ev. rewrite gen_init_ok. cbn [m_step fst]. unfold done.
@@ -276,21 +304,23 @@ Qed.
 (* run_meth, all operations, sequences                                     *)
 (* ====================================================================== *)
 
+Lemma run_parse st s : run_meth gen_a_cls M_parse [VStr s] st = ODone st (parse_rv s).
+Proof. apply (gen_parse_ok 7). Qed.
 Lemma run_coerce st a : run_meth gen_a_cls M_coerce [value_of_arg a] st = ODone st (coerce_rv a).
-Proof. apply (gen_coerce_ok 7). Qed.
+Proof. apply (gen_coerce_ok 6). Qed.
 Lemma run_insert st i a :
   run_meth gen_a_cls M_insert [VInt i; value_of_arg a] st = done (m_insert st i a).
-Proof. apply (gen_insert_ok 6). Qed.
+Proof. apply (gen_insert_ok 5). Qed.
 Lemma run_append st a : run_meth gen_a_cls M_append [value_of_arg a] st = done (m_append st a).
-Proof. apply (gen_append_ok 5). Qed.
+Proof. apply (gen_append_ok 4). Qed.
 Lemma run_extend st l : run_meth gen_a_cls M_extend [VArgs l] st = done (m_extend st l).
-Proof. apply (gen_extend_ok 4). Qed.
+Proof. apply (gen_extend_ok 3). Qed.
 Lemma run_init l : run_meth gen_a_cls M_init [VArgs l] empty_state = done (m_new l).
-Proof. apply (gen_init_ok 3). Qed.
+Proof. apply (gen_init_ok 2). Qed.
 Lemma run_init_default : run_meth gen_a_cls M_init [] empty_state = done (m_new []).
-Proof. apply (gen_init_default 3). Qed.
+Proof. apply (gen_init_default 2). Qed.
 Lemma run_remove st a : run_meth gen_a_cls M_remove [value_of_arg a] st = done (m_remove st a).
-Proof. apply (gen_remove_ok 6). Qed.
+Proof. apply (gen_remove_ok 5). Qed.
 Lemma run_pop st i : run_meth gen_a_cls M_pop [VInt i] st = done (m_pop st (Some i)).
 Proof. apply (gen_pop_ok 7). Qed.
 Lemma run_pop_default st : run_meth gen_a_cls M_pop [] st = done (m_pop st None).
@@ -303,7 +333,7 @@ Lemma run_getitem_int st i : run_meth gen_a_cls M_getitem [VInt i] st = done (m_
 Proof. apply (gen_getitem_int_ok 7). Qed.
 Lemma run_getitem_slice st lo hi :
   run_meth gen_a_cls M_getitem [VSlice lo hi] st = done (m_step st (OpSlice lo hi)).
-Proof. apply (gen_getitem_slice_ok 2). Qed.
+Proof. apply (gen_getitem_slice_ok 1). Qed.
 
 Definition translated (o : op) : bool :=
   match o with OpContains _ => false | _ => true end.
